@@ -316,7 +316,26 @@ fn sub_arith(family: &'static str, index: u64, r: &mut Rng, t: &mut Tally) -> (b
         match res {
             Err(e) => c.violation(&format!("Phase::{name}|panic|{}", e.site()), family, index, json!({"case": detail, "panic": e.text()})),
             Ok(got) => match q_of_phase(&got) {
-                Some((g, _, _)) if g == want => {}
+                Some((g, sn, sd)) if g == want => {
+                    // "the unique representative": the stored fraction itself must be in
+                    // lowest terms with a positive denominator (== compares by value and
+                    // would not notice 2/4), and the classification of the RESULT must be
+                    // the one of its class
+                    if sd <= 0 || gcd_i64(sn, sd) != 1 {
+                        c.violation(&format!("Phase::{name}|stored-fraction-not-in-lowest-terms|{wrap}"), family, index, json!({"case": detail, "stored": format!("{sn}/{sd}")}));
+                    }
+                    let (a, m) = (predicates(&got), predicates_model(&want));
+                    for i in 0..6 {
+                        if a[i] != m[i] {
+                            c.violation(
+                                &format!("Phase::{}|wrong-on-result-of-{name}", PRED_NAMES[i]),
+                                family,
+                                index,
+                                json!({"case": detail, "stored": format!("{sn}/{sd}"), "observed": a[i], "by_definition": m[i]}),
+                            );
+                        }
+                    }
+                }
                 _ => {
                     let class = match q_of_phase(&got) {
                         Some((g, _, _)) if g.congruent_mod2(&want) => "right-class-wrong-representative",
